@@ -270,11 +270,35 @@ def make_pred(p):
 _SYN_CACHE = {}
 
 
-def syn_class(run, call, fill, compute, nodata):
-    key = (run, call, fill, compute, nodata)
+def syn_class(run, call, fill, compute, nodata, request=None, fill_into=0, reset=0, alter=0):
+    key = (run, call, fill, compute, nodata, request, fill_into, reset, alter)
     if key in _SYN_CACHE:
         return _SYN_CACHE[key]
     ns = {}
+    if request == 2:
+        def request_(self):
+            yield ["rq", list(self.filled)]
+        ns["request"] = request_
+    elif request == 1:
+        ns["request"] = "not callable"
+    if fill_into == 2:
+        def fill_into_(self, element, value):
+            element.fill(["fi", value])
+        ns["fill_into"] = fill_into_
+    elif fill_into == 1:
+        ns["fill_into"] = 3
+    if reset == 2:
+        def reset_(self):
+            self.filled = []
+        ns["reset"] = reset_
+    elif reset == 1:
+        ns["reset"] = None
+    if alter == 2:
+        def alter_sequence_(self, seq):
+            return seq
+        ns["alter_sequence"] = alter_sequence_
+    elif alter == 1:
+        ns["alter_sequence"] = "no"
 
     def __init__(self):
         self.filled = []
@@ -304,7 +328,10 @@ def syn_class(run, call, fill, compute, nodata):
         ns["compute"] = 7
     if nodata:
         ns["_has_no_data"] = True
-    cls = type("Syn_r%d_c%d_f%d_p%d_n%d" % (run, int(call), fill, compute, int(nodata)), (object,), ns)
+    name = "Syn_r%d_c%d_f%d_p%d_n%d" % (run, int(call), fill, compute, int(nodata))
+    if request is not None:
+        name += "_q%d_i%d_s%d_a%d" % (request, fill_into, reset, alter)
+    cls = type(name, (object,), ns)
     _SYN_CACHE[key] = cls
     return cls
 
@@ -366,7 +393,27 @@ def build(spec):
     if k == "runnonebad":
         return lena.core.Run(None, run=5)
     if k == "syn":
+        if spec.get("request") is not None:
+            return syn_class(spec["run"], spec["call"], spec["fill"], spec["compute"], spec["nodata"],
+                             spec["request"], spec["fill_into"], spec["reset"], spec["alter"])()
         return syn_class(spec["run"], spec["call"], spec["fill"], spec["compute"], spec["nodata"])()
+    if k == "iterobj":
+        import itertools
+        vals, term, cls = dec(spec["flow"]), spec.get("term"), spec["cls"]
+        if cls == "generator":
+            def g():
+                for v in vals:
+                    yield v
+                if term is not None:
+                    raise EXC[term]("first element failed")
+            return g()
+        if cls == "list_iterator":
+            return iter(vals)
+        if cls == "map":
+            return map(_ident, vals)
+        if cls == "islice":
+            return itertools.islice(iter(vals), None)
+        raise ValueError(cls)
     if k == "junk":
         return None
     if k == "setctx":
@@ -386,6 +433,7 @@ def flags_of(el):
         return 2 if callable(getattr(el, name)) else 1
     return {"run": attr("run"), "call": bool(callable(el)), "fill": attr("fill"), "compute": attr("compute"),
             "nodata": hasattr(el, "_has_no_data"), "iter": hasattr(el, "__iter__"),
+            "request": attr("request"), "fill_into_attr": attr("fill_into"),
             "fill_into": callable(getattr(el, "fill_into", None)), "can_break_flow": hasattr(el, "_can_break_flow"),
             "is_split": isinstance(el, __import__("lena.core").core.Split)}
 
@@ -652,8 +700,9 @@ def run_impl(case):
                 break
         res["eff"] = eff
         # the flow of the first element itself, fed to a plain chain of the tail elements
-        if eff is not None and args[eff]["k"] in ("gen", "iter"):
-            res["ref"] = reference(args[eff + 1:], args[eff]["flow"], None)
+        if eff is not None and args[eff]["k"] in ("gen", "iter", "iterobj"):
+            # Source(first, *tl)() == the tail elements chained by hand on <the values of first>
+            res["ref"] = reference(args[eff + 1:], args[eff]["flow"], args[eff].get("term"))
         return res
     if op == "flags":
         el, err = _construct(lambda: build(case["spec"]))
@@ -792,7 +841,8 @@ def compare(case, res, replies):
         m = replies[0]
         if "e" in res or "e" in m:
             return None if res == m else f"impl {res} vs model {m}"
-        keys = ["run", "call", "fill", "compute", "nodata", "iter", "fill_into", "can_break_flow", "is_split"]
+        keys = ["run", "call", "fill", "compute", "nodata", "iter", "fill_into", "can_break_flow", "is_split",
+                "request", "fill_into_attr"]
         for k in keys:
             if res[k] != m[k]:
                 return f"flag {k}: impl {res[k]} vs model {m[k]} ({res} vs {m})"
@@ -897,7 +947,7 @@ def oracle(case, res):
     if op == "source":
         eff = res.get("eff")
         args = [case["first"]] + case["els"]
-        if eff is None or args[eff]["k"] not in ("gen", "iter", "seq"):
+        if eff is None or args[eff]["k"] not in ("gen", "iter", "seq", "iterobj"):
             return None      # first-element rules are covered by the correspondence, not by this statement
         n = len(case["els"])
         # the cuts whose Source contains the effective first element (arguments before it carry no data)
@@ -998,6 +1048,8 @@ def gen_syn(rng, stateless=False):
              "compute": rng.choice([0, 1, 2, 2]), "nodata": rng.random() < 0.15}
         if stateless and not (s["run"] == 2 or s["call"]) and s["fill"] == 2 and s["compute"] == 2:
             continue     # would be run through fill/compute, which keeps the filled values between runs
+        if rng.random() < 0.4:
+            add_extras(rng, s)
         return s
 
 
@@ -1011,6 +1063,20 @@ def fc_capable(spec):
     if k == "split":
         return bool(spec["branches"]) and all(any(fc_capable(e) for e in b) for b in spec["branches"])
     return False
+
+
+def fr_capable(spec):
+    """callable fill and request (is_fill_request_el): a tuple with such an element and no fill/compute element
+    would become a FillRequestSeq branch of Split (C16), which this model does not cover"""
+    return spec["k"] == "syn" and spec["fill"] == 2 and spec.get("request") == 2
+
+
+def add_extras(rng, s):
+    """the further capabilities of a synthetic class: request, fill_into, reset, alter_sequence (absent / not
+    callable / method)"""
+    s.update({"request": rng.choice([0, 1, 2, 2]), "fill_into": rng.choice([0, 0, 1, 2]), "reset": rng.choice([0, 1, 2]),
+              "alter": rng.choice([0, 0, 1, 2])})
+    return s
 
 
 def new_state(rerun=False, stateless=False, region=None):
@@ -1093,9 +1159,14 @@ def gen_branch(rng, st, depth):
                 ist = new_state(rerun=True, stateless=True)
                 pre.append({"k": "runif", "p": rng.choice(PREDS),
                             "inner": [gen_elem(rng, ist, depth + 2) for _ in range(rng.choice([0, 1, 2]))]})
-            elif rr < 0.92:
+            elif rr < 0.90:
                 pre.append({"k": "syn", "run": rng.choice([0, 2]), "call": True, "fill": rng.choice([0, 1]), "compute": 0,
                             "nodata": rng.random() < 0.2})
+            elif rr < 0.92:
+                # an element with its own fill_into (FillSeq uses it as it is), callable or not
+                pre.append({"k": "syn", "run": rng.choice([0, 2]), "call": rng.random() < 0.5, "fill": 0, "compute": 0,
+                            "nodata": False, "request": rng.choice([0, 1, 2]), "fill_into": rng.choice([1, 2, 2]),
+                            "reset": rng.choice([0, 2]), "alter": rng.choice([0, 1, 2])})
             elif rr < 0.96:
                 pre.append({"k": "setctx"})
             else:
@@ -1123,7 +1194,7 @@ def gen_branch(rng, st, depth):
                 e = {"k": "seq", "els": [gen_elem(rng, bst, depth + 2) for _ in range(rng.choice([0, 1, 2]))]}
             else:
                 e = gen_elem(rng, bst, depth + 1)
-            if not fc_capable(e):       # it would change the type of the branch
+            if not fc_capable(e) and not fr_capable(e):       # it would change the type of the branch
                 break
         else:
             e = {"k": "call", "f": "ident"}
@@ -1272,6 +1343,36 @@ def gen_cases(ctx):
                       "brks": [[0, 1, 2], [[0, 1], 2], [0, [1, 2]], [0, [1], 2]]})
         yield ({"op": "source", "first": {"k": "gen", "flow": [1, 2]}, "els": [s, inc], "cuts": [0, 1, 2, 3]})
         yield ({"op": "source", "first": s, "els": [inc], "cuts": [0, 1, 2]})
+    # the same capability classes with a `request` attribute (not callable / method): irrelevant for Sequence, Run and
+    # Source - an element with fill and request but no compute is NOT convertible
+    for s0 in all_syn():
+        for rq in (1, 2):
+            s = dict(s0, request=rq, fill_into=0, reset=0, alter=0)
+            yield ({"op": "flags", "spec": s})
+            yield ({"op": "regroup", "els": [s], "flow": [1, 2], "term": None, "brks": [[0], [[0]]]})
+            if rq == 2:
+                yield ({"op": "source", "first": {"k": "gen", "flow": [1, 2]}, "els": [s, inc], "cuts": [0, 1, 2, 3]})
+    # a sample of the full product with fill_into / reset / alter_sequence in {absent, not callable, method}
+    syns = list(all_syn())
+    for _ in range(150 if not thorough else 1500):
+        s = add_extras(rng, dict(rng.choice(syns)))
+        yield ({"op": "flags", "spec": s})
+        yield ({"op": "regroup", "els": [inc, s, {"k": "run", "el": s}], "flow": [1, 2, 3], "term": None,
+                "brks": [[0, 1, 2], [[0, 1], 2], [0, [1, 2]]]})
+    # one-pass iterator objects as first element of a Source: nothing may be taken from them at construction
+    tails = [[], [inc], [inc, {"k": "count", "name": "n"}], [{"k": "acc", "a": "sum"}], [{"k": "slice", "args": [2]}],
+             [{"k": "setctx"}, inc, {"k": "acc", "a": "store", "group": True}], [{"k": "junk"}]]
+    for cls in ("generator", "list_iterator", "map", "islice"):
+        for fl in ([], [1, 2, 3], FLOW_B):
+            for tl in tails:
+                yield ({"op": "source", "first": {"k": "iterobj", "cls": cls, "flow": fl, "term": None}, "els": tl,
+                        "cuts": list(range(len(tl) + 2))})
+        yield ({"op": "flags", "spec": {"k": "iterobj", "cls": cls, "flow": [1], "term": None}})
+        yield ({"op": "regroup", "els": [{"k": "iterobj", "cls": cls, "flow": [1], "term": None}], "flow": [1], "term": None,
+                "brks": [[0], [[0]]]})
+    for tl in tails:
+        yield ({"op": "source", "first": {"k": "iterobj", "cls": "generator", "flow": [1, 2], "term": "Other:ValueError"},
+                "els": tl, "cuts": list(range(len(tl) + 2))})
     # empty sequences / sources
     for fl in ([], [1], FLOW_B):
         yield ({"op": "regroup", "els": [], "flow": fl, "term": None, "brks": [[], [[]], [[], [[]]]]})
@@ -1339,7 +1440,7 @@ def gen_cases(ctx):
             for _e in range(rng.choice([0, 1, 1, 2, 3])):
                 for _try in range(20):
                     e = gen_elem(rng, bst, 1)
-                    if not fc_capable(e):
+                    if not fc_capable(e) and not fr_capable(e):
                         break
                 else:
                     e = {"k": "call", "f": "ident"}
@@ -1352,10 +1453,14 @@ def gen_cases(ctx):
         n = rng.choice([0, 1, 2, 3, 4, 5, 6])
         els = gen_prog(rng, n)
         r = rng.random()
-        if r < 0.45:
+        if r < 0.35:
             first = {"k": "gen", "flow": gen_flow(rng)}
-        elif r < 0.9:
+        elif r < 0.6:
             first = {"k": "iter", "flow": gen_flow(rng)}
+        elif r < 0.9:
+            cls = rng.choice(["generator", "generator", "list_iterator", "map", "islice"])
+            first = {"k": "iterobj", "cls": cls, "flow": gen_flow(rng),
+                     "term": gen_term(rng, 0.2) if cls == "generator" else None}
         elif r < 0.95:
             first = gen_elem(rng, new_state(), 1)
         else:
@@ -1507,7 +1612,7 @@ def shrink(case):
         for i in range(n):
             els = case["els"][:i] + case["els"][i + 1:]
             yield dict(case, els=els, cuts=list(range(n + 1)))
-        if case["first"]["k"] in ("gen", "iter"):
+        if case["first"]["k"] in ("gen", "iter", "iterobj"):
             fl = case["first"]["flow"]
             for i in range(len(fl)):
                 yield dict(case, first=dict(case["first"], flow=fl[:i] + fl[i + 1:]))
